@@ -164,11 +164,12 @@ func funcRange(v []data.Value) data.Value {
 		limit = int(v[0].(data.Int))
 	}
 
+	if increment == 0 {
+		panic("range: the step must not be zero")
+	}
 	var indices data.List
-	var i = 0
-	for index := init; index < limit; index += increment {
+	for index := init; (increment > 0 && index < limit) || (increment < 0 && index > limit); index += increment {
 		indices = append(indices, data.Int(index))
-		i++
 	}
 	return indices
 }
